@@ -31,6 +31,9 @@ def apply_patch(patch, cwd):
         rc, out = sh(f"git apply --3way --whitespace=nowarn {patch}", cwd)
         if rc == 0:
             sh("git reset -q", cwd)
+        else:
+            # a failed 3-way attempt leaves conflict markers / unmerged paths behind
+            sh("git reset -q --hard HEAD", cwd)
     return rc, out
 
 
@@ -109,7 +112,7 @@ def run(ids):
         rc, out = apply_patch(os.path.join(d, "patch.diff"), REPO)
         if rc:
             table[sid] = "PATCH-DOES-NOT-APPLY"
-            sh("git checkout -- .", REPO)
+            sh("git reset -q --hard HEAD", REPO)
             continue
         hits = []
         try:
